@@ -26,6 +26,9 @@ var c06Carriers = []string{
 	`<p>alpha</p><table><thead><tr><th>h</th><th>h</th></tr></thead><tbody><tr><td><a href="REF">l</a><img src="REF" srcset="REF 1x"></td><td><video src="REF" poster="REF"></video></td></tr></tbody></table>`,
 	`<ul><li>item <a href="REF">link</a></li></ul>`,
 	`<blockquote><a href="REF">quoted link</a> words</blockquote>`,
+	`<h2><a href="REF"><span>alpha</span></a></h2>`,
+	`<p><a href="REF"><b>alpha</b> <i>beta</i></a></p>`,
+	`<div><span><a href="REF">alpha</a></span></div>`,
 }
 
 type c06Counter struct{}
